@@ -3894,11 +3894,30 @@ func timeCalls(repo string) {
 func abortCalls(repo string) {
 	type key struct{ pkg, callee string }
 	cnt := map[key]int{}
-	dirs := []string{"protocol/jt808", "protocol/jt1078", "protocol/model", "protocol/utils", "protocol", "service", "attachment", "terminal", "shared/consts"}
-	for _, dir := range dirs {
-		if _, err := os.Stat(filepath.Join(repo, dir)); err != nil {
-			continue
+	// every directory of the repository that holds non-test Go files, except the example programs: a package added
+	// later is scanned without this list having to change
+	var dirs []string
+	_ = filepath.WalkDir(repo, func(path string, d os.DirEntry, err error) error {
+		if err != nil {
+			return nil
 		}
+		rel, _ := filepath.Rel(repo, path)
+		if d.IsDir() {
+			if rel != "." && (strings.HasPrefix(d.Name(), ".") || rel == "example" || d.Name() == "testdata" || d.Name() == "vendor") {
+				return filepath.SkipDir
+			}
+			return nil
+		}
+		if strings.HasSuffix(d.Name(), ".go") && !strings.HasSuffix(d.Name(), "_test.go") {
+			dir := filepath.Dir(rel)
+			if len(dirs) == 0 || dirs[len(dirs)-1] != dir {
+				dirs = append(dirs, dir)
+			}
+		}
+		return nil
+	})
+	fmt.Fprintf(&out, "\n(* directories scanned for explicit aborts: %s *)", strings.Join(dirs, " "))
+	for _, dir := range dirs {
 		files := parseDir(filepath.Join(repo, dir))
 		for n, f := range files {
 			if strings.HasPrefix(n, "verif_") {
